@@ -80,11 +80,9 @@ fn merge_binary_expression(
     | BinaryOperator::EQ
     | BinaryOperator::NE => {
       if inner.operator == BinaryOperator::PLUS {
-        Some(BinaryExpression {
-          operator: outer_operator,
-          e1: inner.e1,
-          e2: outer_const - inner.e2,
-        })
+        // Decline when `c2 - c1` does not fit in 32 bits (it used to overflow).
+        let merged_const = outer_const.checked_sub(inner.e2)?;
+        Some(BinaryExpression { operator: outer_operator, e1: inner.e1, e2: merged_const })
       } else {
         None
       }
